@@ -31,6 +31,28 @@ def lit(xs):
     return "{" + ", ".join(str(x) for x in xs) + "}"
 
 
+def posted(batch, bunches):
+    """what the real Batch._submit_job_group_bunches and Batch._submit_job_bunches send for these bunches: (keys of the job groups in
+    posting order, keys of the jobs in posting order); _submit_spec_bunch (the HTTP POST) is replaced by a recorder"""
+    import asyncio
+
+    sent = []
+
+    async def record(url, byte_specs, progress_task):
+        sent.append(("g" if url.endswith("/job-groups/create") else "j", [json.loads(b)["i"] for b in byte_specs]))
+
+    batch._submit_spec_bunch = record
+    batch._id = 1
+    batch._raise_if_not_created = lambda: None
+
+    async def go():
+        await batch._submit_job_group_bunches(1, bunches, None)
+        await batch._submit_job_bunches(1, bunches, None)
+
+    asyncio.run(go())
+    return [k for t, ks in sent if t == "g" for k in ks], [k for t, ks in sent if t == "j" for k in ks]
+
+
 def run(ctx):
     loader.install()
     from hailtop.batch_client import aioclient
@@ -83,6 +105,7 @@ def run(ctx):
                     content = json.loads(sb.spec_bytes)
                     items.append({"t": "g" if sb.typ == SpecType.JOB_GROUP else "j", "k": content["i"], "nb": len(sb.spec_bytes)})
                 out["bunches"].append(items)
+            out["pg"], out["pj"] = posted(batch, bunches)
             err = None
         except Exception as e:  # the client refuses (assert) - judged by the specification
             out = {"o": "raise", "bunches": []}
